@@ -37,6 +37,7 @@ pub const V7_LEAK: u8 = 7;
 pub const V8_UNEXPECTED_DROP: u8 = 8;
 pub const V9_ALIAS: u8 = 9;
 pub const V10_UNEXPECTED_PANIC: u8 = 10;
+pub const V11_ABNORMAL_TERMINATION: u8 = 11;
 
 pub fn class_name(c: u8) -> &'static str {
     match c {
@@ -50,6 +51,7 @@ pub fn class_name(c: u8) -> &'static str {
         8 => "V8-unexpected-drop",
         9 => "V9-alias",
         10 => "V10-unexpected-panic",
+        11 => "V11-abnormal-termination",
         _ => "V?-unknown",
     }
 }
@@ -115,6 +117,10 @@ pub struct Ledger {
     plan: Option<(Cb, u32)>,
     counter: u32,
     pub fired: bool,
+    /// true between `begin_op` and `end_op`: real code is running inside a `catch_unwind`
+    in_op: bool,
+    /// print trace lines at once instead of buffering them (crash-isolation children)
+    pub live: bool,
     pub drops_in_op: u32,
     pub touches_in_op: u32,
     pub fresh_in_op: Vec<u32>,
@@ -138,6 +144,8 @@ impl Ledger {
             plan: None,
             counter: 0,
             fired: false,
+            in_op: false,
+            live: false,
             drops_in_op: 0,
             touches_in_op: 0,
             fresh_in_op: Vec::new(),
@@ -168,14 +176,31 @@ impl Ledger {
                 EV_OP => "op",
                 _ => "note",
             };
-            t.push(format!("    [{}] {} {}", self.step, name, a));
+            let line = format!("    [{}] {} {}", self.step, name, a);
+            if self.live {
+                eprintln!("{}", line);
+            }
+            t.push(line);
         }
+    }
+
+    /// Once a violation has been recorded the state is no longer trusted. A callback that
+    /// arrives while real code is still running inside an operation bracket then unwinds, so
+    /// that a broken container cannot keep the run alive forever (an iterator that never
+    /// ends, for instance). Never while already unwinding (that would abort).
+    #[inline]
+    fn abandon(&self) -> bool {
+        self.viol.is_some() && self.in_op && !std::thread::panicking()
     }
 
     pub fn raise(&mut self, class: u8, detail: String) {
         self.ev(EV_NOTE, 1000 + class as u64);
         if let Some(t) = self.trace.as_mut() {
-            t.push(format!("    [{}] !! {}: {}", self.step, class_name(class), detail));
+            let line = format!("    [{}] !! {}: {}", self.step, class_name(class), detail);
+            if self.live {
+                eprintln!("{}", line);
+            }
+            t.push(line);
         }
         if self.viol.is_none() {
             self.viol = Some(Violation { class, step: self.step, detail });
@@ -218,6 +243,9 @@ impl Ledger {
     }
 
     fn on_drop(&mut self, id: u32, val: u32) -> bool {
+        if self.abandon() {
+            return true;
+        }
         self.ev(EV_DROP, id as u64);
         self.total_drops += 1;
         if !self.lookup("drop", id, val) {
@@ -248,6 +276,9 @@ impl Ledger {
     }
 
     fn on_touch(&mut self, kind: u64, what: &str, id: u32, val: u32) -> bool {
+        if self.abandon() {
+            return true;
+        }
         self.ev(kind, id as u64);
         self.total_touches += 1;
         if !self.lookup(what, id, val) {
@@ -304,6 +335,7 @@ pub fn reset(trace: bool) {
         l.plan = None;
         l.counter = 0;
         l.fired = false;
+        l.in_op = false;
         l.drops_in_op = 0;
         l.touches_in_op = 0;
         l.fresh_in_op.clear();
@@ -326,6 +358,7 @@ pub fn begin_op(allow_drop: u16, allow_touch: u16, plan: Option<(Cb, u32)>) {
         l.plan = plan;
         l.counter = 0;
         l.fired = false;
+        l.in_op = true;
         l.drops_in_op = 0;
         l.touches_in_op = 0;
         l.fresh_in_op.clear();
@@ -338,6 +371,7 @@ pub fn end_op() -> bool {
         l.allow_drop = 0;
         l.allow_touch = 0;
         l.plan = None;
+        l.in_op = false;
         l.fired
     })
 }
@@ -347,10 +381,21 @@ pub fn note(kind: u64, a: u64) {
 }
 pub fn trace_line(s: impl FnOnce() -> String) {
     with(|l| {
-        if let Some(t) = l.trace.as_mut() {
-            t.push(s());
+        if l.trace.is_some() {
+            let line = s();
+            if l.live {
+                eprintln!("{}", line);
+            }
+            l.trace.as_mut().unwrap().push(line);
         }
     });
+}
+pub fn set_live(on: bool) {
+    with(|l| l.live = on);
+}
+/// Used by harness closures that run inside an operation bracket (fold accumulators, ...).
+pub fn should_abandon() -> bool {
+    with(|l| l.abandon())
 }
 pub fn raise(class: u8, detail: String) {
     with(|l| l.raise(class, detail));
@@ -420,7 +465,7 @@ impl Default for Tok {
     fn default() -> Tok {
         let (inject, id) = with(|l| {
             l.total_defaults += 1;
-            if l.want_inject(Cb::Default) {
+            if l.abandon() || l.want_inject(Cb::Default) {
                 return (true, 0);
             }
             let id = l.on_new(DEFAULT_VAL, OWN_FRESH, Origin::Default);
